@@ -207,8 +207,17 @@ func validateMXIDMappingSignatures(ctx context.Context, e PDU, mapping MXIDMappi
 }
 
 func extractAuthorisedViaServerName(content []byte) (spec.ServerName, error) {
-	if v := gjson.GetBytes(content, "join_authorised_via_users_server"); v.Exists() {
-		_, serverName, err := SplitID('@', v.String())
+	// Read the member the way the auth rules do (MemberContent, decoded by encoding/json). If it
+	// is repeated, the two readers must agree on which user is named: otherwise the join is
+	// checked against the signature of one server and authorised by the user of another.
+	var c struct {
+		AuthorisedVia *string `json:"join_authorised_via_users_server"`
+	}
+	if err := json.Unmarshal(content, &c); err != nil {
+		return "", fmt.Errorf("failed to read authorised server: %w", err)
+	}
+	if c.AuthorisedVia != nil {
+		_, serverName, err := SplitID('@', *c.AuthorisedVia)
 		if err != nil {
 			return "", fmt.Errorf("failed to split authorised server: %w", err)
 		}
